@@ -129,6 +129,66 @@ async def _late_consumer(seed):
     return dict(n=n, fail=fail, exc=exc, got=got, ended=ended)
 
 
+async def _resubmit(seed):
+    """a run with an explicit run_id finishes without its stream being read (the caller only awaits the result, the handler
+    stays referenced); the SAME id is then submitted again.  Either the second submission is refused, or it is a run of
+    its own: its stream holds its own events only and ends with the terminal event matching ITS outcome."""
+    import asyncio
+    from workflows import Context, Workflow, step
+    from workflows.events import Event, StartEvent
+    rng = random.Random(seed)
+    n1, n2 = rng.randint(0, 3), rng.randint(0, 3)
+    second_fails = rng.random() < 0.5
+
+    class Note(Event):
+        tag: int
+        k: int
+
+    class W(Workflow):
+        @step
+        async def start(self, ctx: Context, ev: StartEvent) -> StopEvent:
+            for k in range(ev.n):
+                ctx.write_event_to_stream(Note(tag=ev.tag, k=k))
+            if ev.boom:
+                raise ValueError("boom %d" % ev.tag)
+            return StopEvent(result=ev.tag)
+
+    wf = W(timeout=None)
+    h1 = wf.run(run_id="rid-%d" % seed, tag=1, n=n1, boom=False)
+    r1 = await asyncio.wait_for(h1, 5)
+    out = dict(seed=seed, first_result=r1, notes_first=n1, notes_second=n2, second_fails=second_fails)
+    try:
+        h2 = wf.run(run_id="rid-%d" % seed, tag=2, n=n2, boom=second_fails)
+    except Exception as ex:  # noqa: BLE001
+        out["refused"] = repr(ex)[:120]
+        return out, []
+    stream = []
+
+    async def consume():
+        async for e in h2.stream_events():
+            stream.append(e)
+    why = []
+    try:
+        await asyncio.wait_for(consume(), 5)
+    except asyncio.TimeoutError:
+        why.append("the stream of the re-submitted run never terminated")
+    res2, exc2 = None, None
+    try:
+        res2 = await asyncio.wait_for(h2, 5)
+    except Exception as ex:  # noqa: BLE001
+        exc2 = ex
+    out.update(stream=[type(e).__name__ + (":%d" % e.tag if hasattr(e, "tag") else "") for e in stream],
+               second_outcome=("result %r" % (res2,)) if exc2 is None else ("raised %r" % (exc2,)))
+    foreign = [e for e in stream if getattr(e, "tag", 2) != 2 or (isinstance(e, StopEvent) and getattr(e, "result", 2) != 2)]
+    if foreign:
+        why.append("the stream of the re-submitted run holds events of the EARLIER run under that id: %s" % out["stream"])
+    term = [e for e in stream if isinstance(e, (StopEvent, WorkflowFailedEvent, WorkflowCancelledEvent, WorkflowTimedOutEvent))]
+    want = WorkflowFailedEvent if exc2 is not None else StopEvent
+    if not why and (len(term) != 1 or not isinstance(stream[-1], want)):
+        why.append("the re-submitted run ended with %s but its stream is %s" % (out["second_outcome"], out["stream"]))
+    return out, why
+
+
 def run(ctx):
     ctx.rule = ("L1: random reachable reducer histories, terminal-event/exit-command pairing on every real transition; L2: "
                 "generated workflows ending in every way (result, step failure with/without retries, raising retry policy, "
@@ -147,6 +207,21 @@ def run(ctx):
     if known:
         ctx.finding(K_CANCEL_PUBLISH, known[0]["why"], dict(kind="implementation-monitor/L2", input=known[0], occurrences=len(known)))
     report_l2(ctx, other)
+    # ---- the same run id submitted again after the first run finished unread
+    import vloop
+    rfails, refused = [], 0
+    rng2 = random.Random(ctx.seed * 53 + 1)
+    for _ in range(ctx.n(12, 200)):
+        sd = rng2.randrange(1 << 30)
+        o, why = vloop.run(_resubmit(sd))
+        refused += 1 if "refused" in o else 0
+        ctx.count(1, ("resubmit", o.get("notes_first"), o.get("notes_second"), o.get("second_fails"), "refused" in o))
+        for w in why:
+            rfails.append(dict(why=w, case=o))
+    ctx.suite("resubmit_same_run_id", cases=ctx.n(12, 200), refused=refused, failures=len(rfails))
+    for f in rfails[:2]:
+        ctx.violation("C04 fails on the real engine: %s" % f["why"], dict(kind="implementation-monitor/L2", input=f["case"],
+                      replay_hint="props.C04._resubmit(seed)"))
     # late consumers of runs that published a burst of events
     import vloop
     from suites.wfevents import U6
